@@ -159,7 +159,7 @@ func bin(op string, a, b *ref.Node) *ref.Node {
 // genProg generates a program of the C07 sub-language; intLike hints that an
 // integer-valued expression is wanted.
 func genProg(t *rapid.T, depth int, wantInt bool) *ref.Node {
-	locals := []string{"$a", "$b", "$c", "$a", "$b", "$__v", "$_"}
+	locals := []string{"$a", "$b", "$c", "$a", "$b", "$__v", "$_", "$\u7a0e\u7387", "$\u7a0e\u989d", "$a\u503c", "$\u00e9"}
 	if depth <= 0 {
 		switch rapid.IntRange(0, 5).Draw(t, "leaf") {
 		case 0, 1:
